@@ -586,17 +586,23 @@ func (t *FSTree) readPayloadRange(addr oid.Address, rng common.PayloadRange, rea
 		}
 	}
 
-	resStream, err := shiftStreamToRange(prefix, pldLen, rng, stream)
-	if err != nil {
-		return nil, 0, nil, err
-	}
-
 	var hdr *object.Object
 	if readHeader {
-		hdr, _, err = objectwire.ExtractHeaderAndPayload(prefix)
+		// parse before shifting: shifting may reuse the buffer. The payload field
+		// prefix may be cut by the buffer end, so it is left out.
+		hdrBuf := prefix
+		if !hf.IsMissing() {
+			hdrBuf = prefix[:hf.To]
+		}
+		hdr, _, err = objectwire.ExtractHeaderAndPayload(hdrBuf)
 		if err != nil {
 			return nil, pldLen, nil, fmt.Errorf("extract header in read payload range: %w", err)
 		}
+	}
+
+	resStream, err := shiftStreamToRange(prefix, pldLen, rng, stream)
+	if err != nil {
+		return nil, 0, nil, err
 	}
 
 	return hdr, pldLen, resStream, nil
@@ -654,12 +660,13 @@ func shiftPayloadRangeStream(prefix []byte, pldLen uint64, pldFldOff int, stream
 			return nil, fmt.Errorf("read stream: %w", err)
 		}
 
-		_, n, err = iprotobuf.ParseVarint(prefix[:n+extra])
+		buffered := n + extra
+		_, n, err = iprotobuf.ParseVarint(prefix[:buffered])
 		if err != nil {
 			return nil, fmt.Errorf("parse payload field len: %w", err)
 		}
 
-		prefix = prefix[:n]
+		prefix = prefix[n:buffered]
 	}
 
 	if stream == nil && uint64(len(prefix)) != pldLen {
